@@ -474,15 +474,57 @@ fn undeduplicated(model: &StackModel, depth: usize) -> (u64, HashSet<Abs>, Optio
             let n = next_abs(s, &a);
             hist.push(a);
             *seqs += 1;
-            // conformance only at the leaves' parents is enough for the guard: the checker replays every transition
+            // every *sequence* is replayed on the real types, not only one representative per abstract
+            // state: behaviour that depends on the order of operations reaching one abstract state
+            // (the hidden real state differs) cannot hide behind the deduplication
+            if let Some(m) = conform(&n, hist) {
+                *bad = Some((hist.clone(), m));
+                hist.pop();
+                return;
+            }
             rec(model, &n, hist, depth, seqs, set, bad);
             hist.pop();
         }
     }
+    // one worker per first action (the subtrees are independent)
+    let root = init_abs();
+    let firsts = model.enabled(&root);
+    let results: Vec<(u64, HashSet<Abs>, Option<(Vec<Action>, String)>)> = std::thread::scope(|sc| {
+        let handles: Vec<_> = firsts
+            .iter()
+            .map(|a| {
+                let root = &root;
+                sc.spawn(move || {
+                    let mut seqs = 1;
+                    let mut set = HashSet::new();
+                    let mut bad = None;
+                    let n = next_abs(root, a);
+                    let mut hist = vec![a.clone()];
+                    if let Some(m) = conform(&n, &hist) {
+                        bad = Some((hist.clone(), m));
+                    } else if depth >= 1 {
+                        rec(model, &n, &mut hist, depth, &mut seqs, &mut set, &mut bad);
+                    }
+                    (seqs, set, bad)
+                })
+            })
+            .collect();
+        handles.into_iter().map(|h| h.join().expect("guard worker")).collect()
+    });
     let mut seqs = 0;
     let mut set = HashSet::new();
-    let mut bad = None;
-    rec(model, &init_abs(), &mut Vec::new(), depth, &mut seqs, &mut set, &mut bad);
+    set.insert(root.clone());
+    let mut bad: Option<(Vec<Action>, String)> = None;
+    for (n, st, b) in results {
+        seqs += n;
+        set.extend(st);
+        // keep the shortest counterexample
+        if let Some(x) = b {
+            if bad.as_ref().map(|y| x.0.len() < y.0.len()).unwrap_or(true) {
+                bad = Some(x);
+            }
+        }
+    }
     (seqs, set, bad)
 }
 
@@ -534,14 +576,22 @@ pub fn run(tier: Tier) -> i32 {
             break;
         }
     }
-    if counts.len() == 2 && counts[0] != counts[1] {
+    if report.violation_count() == 0 && counts.len() == 2 && counts[0] != counts[1] {
         eprintln!("[C18] machinery failure: BFS and DFS disagree on the number of unique states: {counts:?}");
         return 2;
     }
     // un-deduplicated guard
-    let gdepth = if tier.thorough() { 4 } else { 3 };
+    let gdepth = if tier.thorough() { 5 } else { 4 };
     let model = StackModel { max_layers, max_ops: gdepth, transitions: AtomicU64::new(0) };
-    let (seqs, set, _) = undeduplicated(&model, gdepth);
+    let (seqs, set, bad) = undeduplicated(&model, gdepth);
+    if let Some((hist, detail)) = bad {
+        report.violation(
+            "C18|order-dependent|un-deduplicated-sequence",
+            hist.len() as u64,
+            json!({"kind":"stack-history","history":hist.iter().map(|a| format!("{a:?}")).collect::<Vec<_>>()}),
+            format!("after {hist:?}: {detail} (found by replaying every operation sequence, not one representative per abstract state)"),
+        );
+    }
     let (unique, _, _, _, disc) = summarize(model.checker().threads(threads).spawn_bfs().join());
     report.evals(seqs);
     if disc.is_none() && unique != set.len() as u64 {
